@@ -21,7 +21,8 @@ ASSUMPTIONS = [
     "|values| <= 1e9 + offsets up to 2^30, optionally rescaled by 2^k with |k| <= 300 (|values| <= 1e100: no overflow in "
     "differences or their products)",
     "the reference (plateau compression + comparison of neighbouring plateaus) and the statement's validity predicate are "
-    "independent encodings of the statement; a disagreement between the two on the same indices is a harness error, not a violation",
+    "independent encodings of the statement; the library must satisfy both, and the predicate must accept the reference's own "
+    "answer on every case - if it does not, the oracle is broken and the run is a harness error (exit 2), not a violation",
     "cycle counter: exact at the reported peaks up to 8*eps*max(1,value) (np.interp arithmetic), linear between them with the "
     "same bound; after the last reported peak (final constant run) only 'non-decreasing' is asserted (the statement is silent there)",
 ]
@@ -136,28 +137,28 @@ def _check_indices(ctx, a, arg):
         if out.size and out.dtype.kind not in "iu":
             ctx.fail("ptype=%s: indices have dtype %s" % (ptype, out.dtype))
         got[ptype] = out.tolist()
-    # 1. statement as a predicate on the library's answer
+    # 1. the statement as a predicate on the library's answer, and the turning-point reference; the two encodings guard
+    #    each other: the predicate must accept the reference's own answer (otherwise the oracle is broken: exit 2)
     msg = ref.peaks_violation(a, got["all"])
-    same = got["all"] == r_all
-    if msg is None and not same:
-        raise HarnessError("reference %r and validity predicate disagree on %r for %r" % (r_all, got["all"], a.tolist()[:40]))
-    if msg is not None and same:
-        raise HarnessError("validity predicate rejects the reference answer %r (%s) for %r" % (r_all, msg, a.tolist()[:40]))
+    if got["all"] != r_all:
+        if ref.peaks_violation(a, r_all) is not None:
+            raise HarnessError("validity predicate rejects the reference answer %r for %r" % (r_all, a.tolist()[:40]))
+        ctx.fail("ptype=all: %s; got %s, turning points (reference) %s" % (
+            msg or "not the set of turning points", _sh(got["all"]), _sh(r_all)))
     if msg is not None:
-        ctx.fail("ptype=all: %s; got %s, turning-point reference %s" % (msg, _sh(got["all"]), _sh(r_all)))
+        raise HarnessError("validity predicate rejects the reference answer %r (%s) for %r" % (r_all, msg, a.tolist()[:40]))
     # 2. max / min selections
     r_max = [i for i, k in zip(r_all, kinds) if k == "max"]
     r_min = [i for i, k in zip(r_all, kinds) if k == "min"]
     kmsg = ref.kinds_violation(a, got["all"], got["max"], got["min"])
-    ksame = got["max"] == r_max and got["min"] == r_min
-    if kmsg is None and not ksame:
-        raise HarnessError("max/min reference and predicate disagree for %r" % (a.tolist()[:40],))
-    if kmsg is not None and ksame:
+    if got["max"] != r_max or got["min"] != r_min:
+        if ref.kinds_violation(a, r_all, r_max, r_min) is not None:
+            raise HarnessError("max/min predicate rejects the reference answer for %r" % (a.tolist()[:40],))
+        which = "max" if got["max"] != r_max else "min"
+        ctx.fail("ptype=%s: got %s, local %s are %s (%s)" % (
+            which, _sh(got[which]), "maxima" if which == "max" else "minima", _sh(r_max if which == "max" else r_min), kmsg))
+    if kmsg is not None:
         raise HarnessError("max/min predicate rejects the reference answer (%s) for %r" % (kmsg, a.tolist()[:40]))
-    if got["max"] != r_max:
-        ctx.fail("ptype=max: got %s, local maxima are %s (%s)" % (_sh(got["max"]), _sh(r_max), kmsg))
-    if got["min"] != r_min:
-        ctx.fail("ptype=min: got %s, local minima are %s (%s)" % (_sh(got["min"]), _sh(r_min), kmsg))
     return r_all, kinds
 
 
